@@ -14,12 +14,13 @@ import (
 func init() { registry["C10"] = checkC10 }
 
 func checkC10(c *Ctx, r *Report) {
-	r.Explain = "Decides structural necessary conditions of sound version-vector ordering: (R1) 'has seen' — DominatesSource(v) is, for all values, found(v.source) ∧ stored ≥ v.value (abstract evaluation over every order type), with the lookup consulting the current version before merge versions before previous versions; (R2) the conflict decision is the table the property states — known iff the local vector has seen the incoming current version, else accept iff the incoming vector has seen the local current version or both record the same non-empty merge, else conflict — for all 64 valuations of its atoms (don't-care: mutual domination with different current versions, which per-source monotonicity excludes); (R3) locally generated versions are floored by the maximum value already recorded for this source and AddVersion refuses to lower a source; (R4) ownership: vector fields are written only by the vector's own methods, every insertion into the merge versions of an existing vector removes that source from the previous versions (the non-clearing setter has no production caller), an equal merge version is never classified as older; (R5) stored form: encoder and decoder declare the same persisted field set, fill/consume it one-to-one through paired value codecs, and the wire separators written are the ones the parser splits on. Not decided: nothing-lost/nothing-invented over arbitrary merge histories, delta arithmetic, round-trip equality for all vectors."
+	r.Explain = "Decides structural necessary conditions of sound version-vector ordering: (R1) 'has seen' — DominatesSource(v) is, for all values, found(v.source) ∧ stored ≥ v.value (abstract evaluation over every order type), with the lookup consulting the current version before merge versions before previous versions; (R2) the conflict decision is the table the property states — known iff the local vector has seen the incoming current version, else accept iff the incoming vector has seen the local current version or both record the same non-empty merge, else conflict — for all 64 valuations of its atoms (don't-care: mutual domination with different current versions, which per-source monotonicity excludes); (R3) locally generated versions are floored by the maximum value already recorded for this source and AddVersion refuses to lower a source; (R4) ownership: vector fields are written only by the vector's own methods, every insertion into the merge versions of an existing vector removes that source from the previous versions (the non-clearing setter has no production caller), an equal merge version is never classified as older; (R5) stored form: encoder and decoder declare the same persisted field set, fill/consume it one-to-one through paired value codecs, and the wire separators written are the ones the parser splits on.; (R6) UpdateHistory tests AddVersionToPV's verdict for the other vector's current version and merge versions and invalidates its own merge versions when a newer version was refused, so that version is recorded. Not decided: nothing-lost/nothing-invented over arbitrary merge histories (in particular a newer version found only in the other vector's previous versions), delta arithmetic, round-trip equality for all vectors."
 	c10R1(c, r)
 	c10R2(c, r)
 	c10R3(c, r)
 	c10R4(c, r)
 	c10R5(c, r)
+	c10R6(c, r)
 }
 
 func c10R1(c *Ctx, r *Report) {
@@ -514,4 +515,100 @@ func c10R5(c *Ctx, r *Report) {
 		}
 	}
 	r.Check("C10-R5", "wire separators written={',',';'} = separators parsed", c.Pos(wr.Pos()), written[","] && written[";"] && split[","] && split[";"] && len(written) == 2, fmt.Sprintf("written %v parsed %v", keys(written), keys(split)), fmt.Sprintf("wire form separators differ: written %v, parsed %v", keys(written), keys(split)))
+}
+
+// C10-R6: UpdateHistory must not silently drop a version that AddVersionToPV refused to record. AddVersionToPV does not record a
+// version whose source sits in the merge versions; when it reports that the refused version is NEWER than that merge version
+// (versionInMVOlder) the caller has to invalidate the merge versions and add the version again — otherwise the newer version is
+// recorded nowhere and a revision the replica has seen is later reported as a conflict or accepted again.
+func c10R6(c *Ctx, r *Report) {
+	r.Rule("C10-R6", "E2 def-use + pathrules", "in UpdateHistory the verdict of AddVersionToPV for the other vector's current version and merge versions is tested against versionInMVOlder and that edge reaches InvalidateMV", 2)
+	fn := c.Func("(*db.HybridLogicalVector).UpdateHistory")
+	if fn == nil || len(fn.Params) < 2 {
+		r.Fail("C10-R6", "anchor (*db.HybridLogicalVector).UpdateHistory", "-", "function not found")
+		return
+	}
+	other := fn.Params[1]
+	older := int64(-1)
+	if k, ok := c.SSAPkg["db"].Pkg.Scope().Lookup("versionInMVOlder").(*types.Const); ok {
+		older, _ = constantInt64(k)
+	}
+	if older < 0 {
+		r.Fail("C10-R6", "anchor db.versionInMVOlder", "-", "constant not found")
+		return
+	}
+	invalidates := c.Calls(fn, false, nameIs("(*db.HybridLogicalVector).InvalidateMV"))
+	n := map[string]int{}
+	for _, call := range c.Calls(fn, false, nameIs("(*db.HybridLogicalVector).AddVersionToPV")) {
+		a := callArgs(call)
+		if len(a) < 2 {
+			continue
+		}
+		fromField := func(name string) bool {
+			return DependsOn(a[1], func(v ssa.Value) bool {
+				f, b := fieldRead(v)
+				return f != nil && f.Name() == name && b == ssa.Value(other)
+			})
+		}
+		kind := ""
+		switch {
+		case fromField("Version"):
+			kind = "current-version"
+		case fromField("MergeVersions"):
+			kind = "merge-versions"
+		case fromField("PreviousVersions"):
+			kind = "previous-versions"
+		default:
+			kind = "other"
+		}
+		n[kind]++
+		construct := fmt.Sprintf("fn=UpdateHistory AddVersionToPV(%s) #%d verdict=tested-against-versionInMVOlder", kind, n[kind])
+		// a re-add after the merge versions were invalidated cannot meet a merge version any more
+		if len(invalidates) > 0 && DominatedBy(fn, call, NewAvoid().AddInstr(instrs(invalidates)...)) {
+			r.Pass("C10-R6", construct, c.Pos(call.Pos()), "re-add after InvalidateMV (no merge version left to refuse it)")
+			continue
+		}
+		if kind == "previous-versions" {
+			r.Pass("C10-R6", construct, c.Pos(call.Pos()), "exempt: a version in the other vector's previous versions that is newer than one of this vector's merge versions is an inconsistent input (the existing suite documents the drop)")
+			continue
+		}
+		cv := valueOfCall(call)
+		ok := false
+		if cv != nil && cv.Referrers() != nil {
+			for _, rf := range *cv.Referrers() {
+				b, isB := rf.(*ssa.BinOp)
+				if !isB || (b.Op != token.EQL && b.Op != token.NEQ) {
+					continue
+				}
+				k, isK := constInt(b.Y)
+				if !isK {
+					k, isK = constInt(b.X)
+				}
+				if !isK || k != older {
+					continue
+				}
+				pos, neg := EdgesOnValue(fn, func(v ssa.Value) bool { return v == ssa.Value(b) })
+				edges := pos
+				if b.Op == token.NEQ {
+					edges = neg
+				}
+				for _, e := range edges {
+					if ReachFrom(e.To(), 0, func(in ssa.Instruction) bool {
+						for _, iv := range invalidates {
+							if in == ssa.Instruction(iv) {
+								return true
+							}
+						}
+						return false
+					}, nil) != nil {
+						ok = true
+					}
+				}
+			}
+		}
+		r.Check("C10-R6", construct, c.Pos(call.Pos()), ok, "a refused newer version leads to InvalidateMV and is added again", "the verdict of AddVersionToPV is ignored here: when the other vector's "+kind+" is newer than this vector's merge version for the same source it is recorded nowhere — a revision the replica has seen is later reported as a conflict (or accepted again) and the source's recorded value can decrease")
+	}
+	if n["current-version"] == 0 || n["merge-versions"] == 0 {
+		r.Fail("C10-R6", "fn=UpdateHistory AddVersionToPV sites", c.Pos(fn.Pos()), fmt.Sprintf("expected calls for the other vector's current version and merge versions, found %v", n))
+	}
 }
